@@ -1,6 +1,6 @@
 """KNOWN FINDING (C05/C10): a selector refused at activation (SelectorError) leaves the function instrumented."""
 import sys
-sys.path.insert(0, "/repo")
+sys.path.insert(0, __import__("os").environ.get("PVC_REPO", "/repo"))
 from ptera import probing
 from ptera.selector import SelectorError
 
